@@ -975,12 +975,25 @@ func (s *Sim) quiescence() {
 		}
 	}
 	for _, d := range s.docIDs {
-		h0 := s.headView(0, d)
+		c0, f0 := s.headSets(0, d)
 		for i := 1; i < nn; i++ {
-			if h := s.headView(i, d); h != h0 {
-				s.logf("r0 heads: %s", h0)
-				s.logf("r%d heads: %s", i, h)
+			ci, fi := s.headSets(i, d)
+			if ci != c0 {
+				s.logf("r0 heads: %s", c0)
+				s.logf("r%d heads: %s", i, ci)
 				s.violate("diverge/heads", fmt.Sprintf("after every replica merged every commit, r0 and r%d report different head commits for %s", i, short(d)))
+				break
+			}
+			if strings.Join(fi, ",") != strings.Join(f0, ",") {
+				// field-level head sets differ: is every surplus head on either side a stale head, i.e.
+				// an ancestor (in its field DAG) of another stored head of the same field on that replica?
+				sig := "diverge/field-heads"
+				if s.onlyStaleFieldHeads(0, d, f0, fi) && s.onlyStaleFieldHeads(i, d, fi, f0) {
+					sig = "diverge/field-heads/stale-identical-field-block-readded-on-one-replica"
+				}
+				s.logf("r0 field heads: %v", f0)
+				s.logf("r%d field heads: %v", i, fi)
+				s.violate(sig, fmt.Sprintf("after every replica merged every commit, r0 and r%d report different field-level head commits for %s", i, short(d)))
 				break
 			}
 		}
@@ -990,22 +1003,76 @@ func (s *Sim) quiescence() {
 	}
 }
 
-// headView = raw composite + per-field head sets and latestCommits of the public API.
-func (s *Sim) headView(r int, docID string) string {
+// headSets returns (composite head view: raw composite heads with stored heights + latestCommits
+// of the public API, sorted raw field-level head keys "<fieldID>/<cid>=<height>").
+func (s *Sim) headSets(r int, docID string) (string, []string) {
 	n := s.reps[r].n
 	raw := n.RawScan(s.ctx, "/db/heads/d/"+docID+"/")
-	var ks []string
+	var comp, fld []string
 	for k, v := range raw {
-		ks = append(ks, k+"="+fmt.Sprintf("%x", v))
+		rest := strings.TrimPrefix(k, "/db/heads/d/"+docID+"/")
+		e := rest + "=" + fmt.Sprintf("%x", v)
+		if strings.HasPrefix(rest, icore.COMPOSITE_NAMESPACE+"/") {
+			comp = append(comp, e)
+		} else {
+			fld = append(fld, e)
+		}
 	}
-	sort.Strings(ks)
-	if s.P.Store == "memory" {
-		// the corekv memory store self-deadlocks on commit queries over several heads (dependency
-		// defect recorded as a C08 known finding); the raw head scan above is the comparison there.
-		return strings.Join(ks, ",")
-	}
+	sort.Strings(comp)
+	sort.Strings(fld)
 	lc, errs := n.GQL(s.ctx, fmt.Sprintf(`query { latestCommits(docID: "%s") { cid height } }`, docID))
-	return strings.Join(ks, ",") + " latest=" + lc + strings.Join(errs, ";")
+	return strings.Join(comp, ",") + " latest=" + lc + strings.Join(errs, ";"), fld
+}
+
+// onlyStaleFieldHeads: every head of `mine` that `other` lacks is an ancestor, in its own field
+// DAG, of another stored head of the same field on replica r.
+func (s *Sim) onlyStaleFieldHeads(r int, docID string, mine, other []string) bool {
+	n := s.reps[r].n
+	oset := map[string]bool{}
+	for _, o := range other {
+		oset[o] = true
+	}
+	byField := map[string][]string{}
+	for _, m := range mine {
+		parts := strings.SplitN(m, "/", 2)
+		c := parts[1][:strings.Index(parts[1], "=")]
+		byField[parts[0]] = append(byField[parts[0]], c)
+	}
+	for _, m := range mine {
+		if oset[m] {
+			continue
+		}
+		parts := strings.SplitN(m, "/", 2)
+		c := parts[1][:strings.Index(parts[1], "=")]
+		stale := false
+		for _, h := range byField[parts[0]] {
+			if h != c && s.fieldAncestor(n, h, c, map[string]bool{}) {
+				stale = true
+			}
+		}
+		if !stale {
+			return false
+		}
+	}
+	return true
+}
+
+// fieldAncestor reports whether `anc` is reachable from `from` through Heads links.
+func (s *Sim) fieldAncestor(n *core.Node, from, anc string, seen map[string]bool) bool {
+	if seen[from] {
+		return false
+	}
+	seen[from] = true
+	blk, _, err := n.GetBlock(s.ctx, core.ParseCid(from))
+	if err != nil {
+		return false
+	}
+	for _, h := range blk.Heads {
+		if h.Cid.String() == anc || s.fieldAncestor(n, h.Cid.String(), anc, seen) {
+			return true
+		}
+	}
+	return false
 }
 
 func (s *Sim) indexAgreement() {
